@@ -51,6 +51,15 @@ NOTES = {  # seed -> (after, what was strengthened)
  "C18d_m2": ("caught (C18 name correspondence + oracle)", "regenerated spelling table (every template identifier N with _N, __N, N_, ' N', -N, N-, case variants); RenameThm.spelling_avoids; PythonIdentifier compared with Names.python_identifier for every candidate and spelling"),
  "C19d_m2": ("caught (C19 oracle)", "hostile names supplied through the CONFIGURATION (class_overrides class / module names) next to document names"),
  "C20d_m1": ("caught (C20 oracle)", "inline <-> reference rewriting of FORWARD allOf members with suffix-related and unrelated names"),
+ "C01e_m1": ("caught (C01 compile + import)", "enum_edge_doc: enum values that are not identifier material (sign / punctuation first, digits after punctuation), both enum styles"),
+ "C02e_m1": ("caught (C02 document-vs-parse)", "every value an inline enum property LISTS in the document must be a value of the parsed property; twin enums in subset / superset relation"),
+ "C02e_m2": ("caught (C02 correspondence + oracle)", "locals_doc: properties named after every identifier the model templates bind (regenerated by gen_names.py for the tree under test, minus listed captures) next to later arrays"),
+ "C04e_m2": ("caught (C04 oracle)", "legal spellings of media-type keys (white space before ';', parameters) in responses and request bodies"),
+ "C06e_m1": ("caught (C06 stage A gen_kind_guards + stage C)", "cross-kind class-name collision documents (model / enum / union / array / allOf x positions x orders x enum styles); regenerated fact: every value read out of classes_by_name is used under an isinstance guard (also exposed finding const_multipart_crash, since repaired: 6f2d009)"),
+ "C10e_m2": ("caught (C10 type correspondence + oracle)", "explicitly typed object composed by allOf of two components under every nullable notation"),
+ "C11e_m2": ("caught (C11 mypy; C01 signature correspondence)", "operations whose only non-path argument is the request body, behind defaulted path parameters"),
+ "C12e_m1": ("caught (C12 stage A import_pool_keys_distinct + hash-seed oracle)", "NEW translator gen_imports.py: the pool of fixed import lines every property class can contribute; no two distinct lines share a case-insensitive sort key; every kind optional next to another optional property under 6 hash seeds"),
+ "C19e_m2": ("caught (C19 oracle + Fs.build correspondence)", "existing output directories of every shape (empty, only dot files, only sub-directories, one file) without --overwrite"),
  "C19c_m1": ("caught (C19 oracle + hook_cwd correspondence)", "post hooks: a marker hook that rewrites *.py below its working directory, all four flavours, with sentinel files around the output directory; Fs.hook_cwd"),
  "C10_m1": ("caught (C10 oracle, C02 correspondence)", "falsy-but-present values (0, \"\", false, {}, []) in the C02 atlas and the C10 grid"),
  "C10_m2": ("caught (C10 oracle; C15 caught it at once)", "allOf-refined required properties in the C10 grid"),
@@ -82,7 +91,7 @@ Each change was produced by a fresh sub-agent that saw only the property text an
 was re-verified by the coordinator (demo exits 0 on the clean tree and 1 with the patch; the pinned suite has the same pass/fail
 set with the patch). Seeds `C??b_*` are a SECOND generation for the same property: their authors were told which earlier changes
 to avoid, so they measure how the strengthened checks generalise; seeds `C??c_*` are a THIRD generation (told to avoid the earlier
-four) and `C??d_*` a FOURTH (told to avoid the earlier six). "first run" = the property's own quick check as it stood when
+four) and `C??d_*` a FOURTH and `C??e_*` a FIFTH (told to avoid all earlier ones). "first run" = the property's own quick check as it stood when
 the change arrived ({c} of {n} caught); every miss led to a strengthening of generators, oracles or models, never to a special case
 for the seed. After strengthening all {n} are caught by the property's own quick check (re-tested with harness/seedtest_iso.py on isolated copies).
 
